@@ -5,7 +5,7 @@ _s = importlib.util.spec_from_file_location("c15cfg", _p); _m = importlib.util.m
 SPEC = {
     "module": "C16.Property",
     "targets": ["C16/Property.vo"],
-    "theorems": ["C16_not_modified_only_for_served_version", "C16_created_monotone", "C16_nonvacuous"],
+    "theorems": ["C16_not_modified_only_for_served_version", "C16_created_monotone", "C16_model_satisfies_spec", "C16_nonvacuous"],
     "streams": [dict(_m.STREAM, name="srv16")],
     "level_text": "Theorem over all histories: validators (ETag, Last-Modified) issued in any reachable state, followed by ANY "
                   "sequence of validation-thread steps with fewer than 2^32 version changes, then a conditional request "
